@@ -7,6 +7,7 @@ package main
 // harness: which deals are consistent, who signed what).
 
 import (
+	"bytes"
 	"fmt"
 	"math/big"
 	"sort"
@@ -19,7 +20,7 @@ import (
 )
 
 // deal faults (the property's menu + the Rabin-specific share pair faults)
-var c10Faults = []string{"honest", "badShare", "badCommit", "wrongIndex", "tOut", "wrongRecipient", "forgedSig", "replaySame", "replayOld", "badRnd", "rndIndex"}
+var c10Faults = []string{"honest", "badShare", "badCommit", "wrongIndex", "tOut", "wrongRecipient", "forgedSig", "replaySame", "replayOld", "badRnd", "rndIndex", "otherPolyThisSid"}
 
 // justification kinds
 var c10JKinds = []string{"good", "bad", "none", "other", "garbage", "othergarbage"}
@@ -126,6 +127,11 @@ func (r *c10Run) line(nd *c10Node, strict bool) string {
 // ---- operations ------------------------------------------------------------------------------
 
 func (r *c10Run) opDeal(v int, e any, sigOK, opens bool, d *mdeal, kind string) *mresp {
+	// the model is told the session identifier the deal's content yields when it is not the announced one
+	if cs := r.be.contentSID(d); !bytes.Equal(cs, d.sid) {
+		d = d.clone()
+		d.csid = cs
+	}
 	out, resp, _ := r.be.procDeal(v, e)
 	r.rec(v, fmt.Sprintf("E:%s:%s:%s", b01(sigOK), b01(opens), d.line(r.st)), "E-"+kind, out)
 	if out == "approve" {
@@ -326,6 +332,18 @@ func c10RunScenario(c *kc.Ctx, sp *c10Spec, rng *kc.Rng) (*c10Run, error) {
 			}
 			d = old.plain(i)
 			e, err = old.encHonest(i)
+		case "otherPolyThisSid":
+			// equivocation: a self-consistent deal of ANOTHER polynomial (other commitments), labelled with
+			// this session's identifier and encrypted by this session's dealer
+			if old == nil {
+				old, err = be.newSession()
+				if err != nil {
+					return nil, err
+				}
+			}
+			d = old.plain(i)
+			d.sid = be.plain(i).sid
+			e, err = be.encFor(i, d)
 		}
 		if err != nil {
 			return nil, fmt.Errorf("building deal %s for %d: %v", f, i, err)
